@@ -2047,13 +2047,16 @@ class locked_ref:
 
         # Delete the actual ref file while holding the lock
         if self._realname:
+            # the packed entry first: with the loose file gone an older
+            # packed value would show until it is removed too (see
+            # DiskRefsContainer.remove_if_equals)
+            self._refs_container._remove_packed_ref(self._realname)
             filename = self._refs_container.refpath(self._realname)
             try:
                 if os.path.lexists(filename):
                     os.remove(filename)
             except FileNotFoundError:
                 pass
-            self._refs_container._remove_packed_ref(self._realname)
 
         self._deleted = True
 
